@@ -312,6 +312,8 @@ def run(ctx):
                 ctx.violation("wrong-sat:%s:%s" % (v, answercheck.signature_tail(logic, "default", A)),
                               "answered sat for difference constraints that are unsatisfiable by construction (cycle of weight -1); own model rejected by the verified evaluator (%s)" % detail,
                               dict(script=text, constant=str(c)))
+    answercheck.sweep(ctx, "C02", 50 if ctx.quick else 1500, 2, judge_sat=True, judge_unsat=False,
+                      gen_kwargs=dict(p_incremental=0.35, p_big=0.0, p_special=0.6, stream=1), logics=["QF_UF", "QF_UF", "QF_UF", "QF_UFLIA", "QF_UFLRA"])
     answercheck.sweep(ctx, "C02", 90 if ctx.quick else 2500, 3, judge_sat=True, judge_unsat=False,
                       gen_kwargs=dict(p_incremental=0.35, p_big=0.45),
                       logics=["QF_LIA", "QF_LIA", "QF_IDL", "QF_IDL", "QF_RDL", "QF_UFLIA", "QF_UFLRA", "QF_LRA", "QF_UF", "QF_BOOL"])
